@@ -4,7 +4,7 @@ from . import netdev as N, resources as R, elements
 def check(ctx):
     N.run_tables(ctx, 'C10', [('Wire', '__init__'), ('Wire', 'put'), ('Wire', 'run'), ('Cable', '__init__'),
                               ('Cable', 'set_endpoints'), ('OutMixIn', 'out'), ('OutMixIn', 'out.setter')])
-    R.run_tables(ctx, 'C10', [('Store', '_do_put'), ('Store', '_do_get'), ('Store', '__init__')])
+    R.run_tables(ctx, 'C10', [('Store', '_do_put@unbounded'), ('Store', '_do_get')])
     elements.spawn_sites(ctx, 'C10', only=('Wire',))
     elements.class_method_sets(ctx, 'C10', only=('Wire', 'Cable'))
     return ('Static: Wire.put (entry instant stamped on every entry, one enqueue), Wire.run (loss decided first with one '
